@@ -596,6 +596,7 @@ fn main() {
         let mut seqs: Vec<Vec<Op>> = vec![];
         // 1. exhaustive from the empty store: full alphabet (2 labels, 2 types, stubs, finish, ≤3 nodes, ≤3 rels)
         enumerate(&[], if th { 5 } else { 4 }, 3, 3, true, &mut seqs);
+        rep.count_n("gen:exhaustive_from_empty", seqs.len() as u64);
         // 2. exhaustive suffixes after seed states, reduced alphabet (one label, one type)
         let seeds: Vec<Vec<Op>> = vec![
             vec![Op::MkN(0), Op::MkN(0), Op::MkE(0, 1, 0)],
@@ -609,30 +610,35 @@ fn main() {
             for op in sd { sh.apply(op); }
             let depth = if th { 5 } else { 4 };
             let depth = if k >= 2 { depth - 1 } else { depth };
+            let b4 = seqs.len();
             enumerate(sd, depth, sh.nodes.len().max(3), sh.edges.len() + 2, false, &mut seqs);
             if th || k < 2 {
-                enumerate(sd, depth - 1, sh.nodes.len().max(3), sh.edges.len() + 2, true, &mut seqs);
+                enumerate(sd, if th { depth - 2 } else { depth - 1 }, sh.nodes.len().max(3), sh.edges.len() + 2, true, &mut seqs);
             }
+            rep.count_n(&format!("gen:exhaustive_after_seed{}", k), (seqs.len() - b4) as u64);
         }
         let n_exh = seqs.len();
         for s in seqs { cases.push((s, 6)); }
         rep.exhaustive = true;
         rep.exhaustive_note = format!(
-            "{} sequences: all histories of length <= {} from the empty store over the full alphabet (2 labels, 2 types, stub creates, \
-             set_edge_property, compact, finish_bulk_load; <=3 nodes, <=3 relationships incl. self-loops and parallel relationships), plus all \
-             suffixes (length <= {}) after {} seed states over the same letters; PRNG histories on top are not exhaustive",
-            n_exh, if th { 5 } else { 4 }, if th { 5 } else { 4 }, seeds.len()
+            "{} sequences: (a) all histories of length <= {} from the empty store over the full alphabet (2 labels, 2 types, stub creates, \
+             set_edge_property, compact, finish_bulk_load; <=3 nodes, <=3 relationships incl. self-loops and parallel relationships); \
+             (b) after each of {} seed states (one relationship; self-loop; parallel+self-loop; two-tier state; pending stubs) all suffixes of \
+             length <= {} over the one-label/one-type alphabet (create, delete_edge, delete_node, compact) and of length <= {} over the full \
+             alphabet; the PRNG histories on top are not exhaustive",
+            n_exh, if th { 5 } else { 4 }, seeds.len(), if th { 5 } else { 4 }, if th { 3 } else { 3 }
         );
         // 3. long random histories
         // `Rng::new(s)` and `Rng::new(s+1)` are the same SplitMix stream shifted by one draw, so
         // consecutive seeds would explore almost the same histories: start from a mixed state
         let mut rng = Rng::new(args.seed);
         rng = Rng(rng.next_u64() ^ args.seed.rotate_left(17).wrapping_mul(0xD6E8_FEB8_6659_FD93));
-        let (n_rand, len_lo, len_hi) = if th { (400, 200, 2000) } else { (60, 100, 400) };
+        let (n_rand, len_lo, len_hi) = if th { (240, 200, 2000) } else { (60, 100, 400) };
+        let mut long: Vec<(Vec<Op>, u64)> = vec![];
         for _ in 0..n_rand {
             let len = len_lo + rng.usize(len_hi - len_lo);
             let mut r = rng.fork();
-            cases.push((random_history(&mut r, len, 4, 6), 7));
+            long.push((random_history(&mut r, len, 4, 6), 7));
         }
         // and many short random ones (denser coverage of the biased pattern)
         for _ in 0..(if th { 60_000 } else { 6_000 }) {
@@ -643,9 +649,25 @@ fn main() {
         if std::env::var("C06_DEBUG").is_ok() {
             for (ops, _) in cases.iter().rev().take(5) { eprintln!("DEBUG {}", render_h(ops)); }
         }
+        // spread the long histories evenly over the list: the driver batch and the real-store
+        // threads split the list into contiguous chunks
+        let short = cases.split_off(before);
+        let every = (short.len() / long.len().max(1)).max(1);
+        let mut li = long.into_iter();
+        for (k, c) in short.into_iter().enumerate() {
+            if k % every == 0 {
+                if let Some(l) = li.next() { cases.push(l); }
+            }
+            cases.push(c);
+        }
+        cases.extend(li);
         rep.count_n("generated_sequences", (cases.len() - before) as u64);
     }
 
+    if std::env::var("C06_COUNT_ONLY").is_ok() {
+        eprintln!("COUNTS {:?} total {}", rep.histogram, cases.len());
+        return;
+    }
     let mut first_break: Option<(String, String)> = None;
     let mut hist_feat: std::collections::BTreeMap<String, u64> = Default::default();
     for chunk in cases.chunks(100_000) {
